@@ -112,6 +112,24 @@ harnesses! {
         let r = TwoFloat::new_mul(a, b);
         vassert!(same(r.hi, a * b), "new_mul: hi == RN(a*b)");
     }
+    /// new_mul is Algorithm 3 (2Prod): (RN(ab), fma(a, b, -RN(ab))) bit for bit, for all 2^128 pairs - with the classical
+    /// 2Prod theorem (assumed) this is the exactness clause hi + lo == ab; the crate's `fma` is not stubbed (both sides
+    /// call the same primitive)
+    #[kani::solver(cvc5)]
+    fn new_mul_is_two_prod() {
+        let a = any_f64!(); let b = any_f64!();
+        let r = TwoFloat::new_mul(a, b);
+        let p = a * b;
+        #[cfg(kani)]
+        { vassert!(same(r.hi, p) && same(r.lo, f64::mul_add(a, b, -p)), "new_mul(a,b) == (RN(ab), fma(a, b, -RN(ab)))"); }
+        #[cfg(not(kani))]
+        {
+            // natively: the exactness clause itself, for products in the stated domain (exact product by shift-and-add in Fix)
+            vassume!(pre_new_mul(a, b) && mul_dom(p) && p != 0.0);
+            let one = TwoFloat { hi: a, lo: 0.0 };
+            vassert!(r.hi == p && super::c04::mul_bound_ok(&r, &one, b, 0.0, 0), "new_mul: hi == RN(ab) and hi + lo == ab exactly");
+        }
+    }
     /// new_mul: result normalised when the product is 0 or in [2^-960, 2^1023)
     #[kani::solver(kissat)] #[kani::stub(crate::arithmetic::fma, fma_fixed)]
     fn new_mul_valid() {
